@@ -111,6 +111,12 @@ type File struct {
 	TrailingJunk   int   // junk bytes after the last chunk
 	JunkByte       byte
 
+	// set by StretchedPieces on its private copy: a hole of stretchBy bytes in front of ChunkOrder[stretchAt]
+	stretch    bool
+	stretchAt  int
+	stretchBy  uint64
+	stretchAbs int // file position of the hole (filled by Build)
+
 	// filled by Build
 	Bytes            []byte
 	MdatStart        int
@@ -494,6 +500,10 @@ func (f *File) Build() error {
 	var payload []byte
 	base := uint64(f.MdatStart + f.MdatHdrLen)
 	for i, cr := range f.ChunkOrder {
+		if f.stretch && i == f.stretchAt {
+			f.stretchAbs = f.MdatStart + f.MdatHdrLen + len(payload)
+			base += f.stretchBy
+		}
 		for j := 0; j < f.Gaps[i]; j++ {
 			payload = append(payload, f.JunkByte)
 		}
@@ -511,7 +521,11 @@ func (f *File) Build() error {
 	f.MdatPayloadLen = len(payload)
 	var mdat []byte
 	if f.LargeMdat {
-		mdat = cat(u32(1), []byte("mdat"), u64(uint64(16+len(payload))), payload)
+		hole := uint64(0)
+		if f.stretch {
+			hole = f.stretchBy
+		}
+		mdat = cat(u32(1), []byte("mdat"), u64(uint64(16+len(payload))+hole), payload)
 	} else {
 		mdat = cat(u32(uint32(8+len(payload))), []byte("mdat"), payload)
 	}
@@ -528,6 +542,32 @@ func (f *File) Build() error {
 		f.Bytes = cat(ftyp, moov, free, mdat)
 	}
 	return nil
+}
+
+// StretchedPieces returns the same movie as a file with a hole of `by` bytes
+// inside the mdat payload in front of ChunkOrder[at] (the chunk offsets behind
+// the hole and the mdat size grow by `by`): the bytes before the hole, the
+// bytes behind it and the file position of the latter, for a sparse write. f
+// itself is not changed. Needs a 64-bit mdat header and co64 in every track.
+func (f *File) StretchedPieces(at int, by uint64) (prefix, suffix []byte, suffixAt int64, err error) {
+	if !f.LargeMdat || at < 0 || at >= len(f.ChunkOrder) {
+		return nil, nil, 0, fmt.Errorf("not stretchable")
+	}
+	g := *f
+	g.Tracks = nil
+	for _, t := range f.Tracks {
+		if !t.Co64 {
+			return nil, nil, 0, fmt.Errorf("track %d has 32-bit chunk offsets", t.ID)
+		}
+		t2 := *t
+		t2.Samples = append([]Sample{}, t.Samples...)
+		g.Tracks = append(g.Tracks, &t2)
+	}
+	g.stretch, g.stretchAt, g.stretchBy = true, at, by
+	if err := g.Build(); err != nil {
+		return nil, nil, 0, err
+	}
+	return g.Bytes[:g.stretchAbs], g.Bytes[g.stretchAbs:], int64(g.stretchAbs) + int64(by), nil
 }
 
 // NrChunks returns the number of chunks of the track.
